@@ -303,6 +303,31 @@ def rule_x3(F):
     return r
 
 
+def rule_x4(F):
+    """`roto check|test|run <path>` work on whatever the path is - a single file or a package directory: every sub-command loads
+    its input with the loader that dispatches on file vs. directory (`FileTree::read`), none with a single-file loader (which reports
+    a package directory as unreadable: no test runs, and the exit status is a failure although nothing rejected)."""
+    r = RuleResult("C19.X4", "every CLI sub-command loads its input with FileTree::read (file or package directory)", floor=3)
+    ci = F.body("cli::cli_inner")
+    if ci is None or not ci.hir:
+        r.missing("cli::cli_inner")
+        return r
+    ms = hir.find_match_on(ci.hir["value"], "Command::", min_arms=2)
+    if not ms:
+        r.missing("match over the sub-commands in cli_inner")
+        return r
+    for arm in ms[0]["arms"]:
+        cmd = hir.last(hir.pat_paths(arm["pat"])[0]) if hir.pat_paths(arm["pat"]) else "?"
+        loaders = sorted({hir.last(hir.call_def(c) or "") for c in hir.nodes(arm["body"], "call") if "FileTree::" in (hir.call_def(c) or "")})
+        if not loaders:
+            continue
+        r.inst("sub-command %s" % cmd, {"command": cmd, "loaders": loaders})
+        if loaders != ["read"]:
+            r.bad(ci.path, "sub-command %s loader" % cmd, relfile(ci.file), arm["line"],
+                  "`roto %s` loads its input with FileTree::%s instead of FileTree::read: a package directory is not discovered (its tests do not run / its entry function is not found) although `roto check` accepts it" % (cmd.lower(), "/".join(loaders)))
+    return r
+
+
 def rules(ctx):
     F = ctx["F"]
-    return [rule_x1(F), rule_x2(F), rule_x3(F)]
+    return [rule_x1(F), rule_x2(F), rule_x3(F), rule_x4(F)]
